@@ -13,7 +13,7 @@ ID = 'C02'
 
 FORMS = [w + m for w in ('$', '$$', '$$$') for m in ('', '@0', '@3', '@10', '@-', '@-3', '@98', '@-999')]   # 98.., 999..: wider than the run
 PLAIN = ('$', '$$', '$$$')
-SITES = ('name', 'class', 'attr', 'qattr', 'id', 'text', 'aname')
+SITES = ('name', 'class', 'attr', 'qattr', 'id', 'text', 'aname', 'eattr')
 TAGS = 'xyzw'
 
 BOUNDS = {
@@ -112,8 +112,11 @@ def element_text(tag, forms):
         text = 'p{q%sr}s' % text            # the numbering run inside balanced inner braces of the text
     if forms.get('jsx'):
         tag = tag.upper()                  # a JSX component name (capitalised) is numbered like any other name
-    return '%s%s.c%s[t=%s u="%s" n%s=k]#i%s{%s%s}' % (tag, forms['name'], forms['class'], forms['attr'], forms['qattr'], forms['aname'],
-                                                      forms['id'], '$#' if forms.get('placeholder') else '', text)
+    # the class continues with `-k` right after the numbering token (a dash there belongs to the class, not to the token);
+    # e={x..}: an expression value keeps its braces in every copy
+    return '%s%s.c%s-k[t=%s u="%s" n%s=k e={x%s}]#i%s{%s%s}' % (tag, forms['name'], forms['class'], forms['attr'], forms['qattr'],
+                                                               forms['aname'], forms['eattr'], forms['id'],
+                                                               '$#' if forms.get('placeholder') else '', text)
 
 
 def render(forest, forms, counter=None):
@@ -203,7 +206,7 @@ def observe(abbr, limit, jsx=False):
         e = ev[j]
         if e[0] == 'o':
             t = ev[j + 1][1] if j + 1 < len(ev) and ev[j + 1][0] == 't' else ''
-            res.append(('o', e[1], dict((a, v) for a, q, v in e[2]), t))
+            res.append(('o', e[1], dict((a, (v if a != 'e' or q == '{' else 'NOT-AN-EXPRESSION:' + str(v))) for a, q, v in e[2]), t))
         elif e[0] == 'c':
             res.append(('c', e[1]))
         j += 1
@@ -237,7 +240,9 @@ def compare(exp, obs, forms):
                    text=b[3])
         got['aname'] = next((an[1:] for an in b[2] if an.startswith('n')), None)
         c = b[2].get('className' if forms.get('jsx') else 'class')
-        got['class'] = c[1:] if c is not None and c.startswith('c') else None
+        got['class'] = c[1:-2] if c is not None and c.startswith('c') and c.endswith('-k') else None
+        ea = b[2].get('e')
+        got['eattr'] = ea[1:] if ea is not None and ea.startswith('x') else ea
         i = b[2].get('id')
         got['id'] = i[1:] if i is not None and i.startswith('i') else None
         if forms.get('nested_text') and want['text'] is not None:
